@@ -355,6 +355,39 @@ def check_comment_state(ctx, out, rule="C12.rescan"):
     out.inst(rule, n, 1, [b.id for b in cands], note="tag iterators: no Some(..) is returned in a state whose current comment is known to be cleared")
 
 
+def check_scanner_end(ctx, out, rule="C12.scan"):
+    """The tag scanner gives up only at the end: `Ok(None)` iff the cursor is at / past the text's length (the
+    plain `>=`, no slack) or no `<` is left."""
+    k = 0
+    scanners = ctx.facts.impls_of_trait(r"tag_parser::BlockTagParser$")
+    for imp in scanners:
+        for meth in imp["methods"]:
+            if meth["name"] != "next":
+                continue
+            b = ctx.facts.body(meth["def"])
+            if b is None:
+                continue
+            for bi, j, s in b.assigns():
+                rv = s["rv"]
+                if s["lhs"]["l"] == 0 and rv["k"] == "agg" and rv.get("variant") == "Ok":
+                    e = ctx.expr(b).operand(rv["ops"][0])
+                    if not (e[0] == "agg" and e[1].endswith("Option::None")):
+                        continue
+                    for br, vals, ge in util.guards(ctx, b, bi):
+                        if ge[0] == "bin" and ge[1] in ("Ge", "Gt", "Le", "Lt", "Eq", "Ne"):
+                            inner = [x for side in (ge[2], ge[3]) for x in walk(side) if x[0] == "bin" or (x[0] == "call" and re.search(r"(saturating|wrapping|checked)_(add|sub)$", x[1]))]
+                            if inner or ge[1] not in ("Ge",):
+                                out.viol(rule, rule + "|bound", ctx.where(b, s["span"]),
+                                         "the tag scanner stops (returns `Ok(None)`) under `%s`: the end-of-text test has slack or a different comparison, so a tag in the last bytes of a comment can be skipped" % render(ge, 160))
+                            else:
+                                k += 1
+                        elif ge[0] == "discr" and find_calls(ge, r"<impl str>::find$"):
+                            k += 1
+                        elif ge[0] == "discr" or ge[0] == "call":
+                            pass
+    out.inst(rule, k, 2, ["Ok(None) iff cursor >= source.len() or no '<' left"])
+
+
 def run(ctx, out, tier):
     check_comment_state(ctx, out)
     check_walkfiles(ctx, out)
@@ -520,35 +553,11 @@ def run(ctx, out, tier):
                 out.inst("C12.noskip", 1, 1, ["%s: Ok without parse only via lookup==None" % fp.id])
     out.inst("C12.through", m, len(impls) + 1 if impls else 3, ["%d BlocksParser::parse impls -> pairing fn; parse(..).context(file)?" % len(impls)])
 
-    # ------------------------------------------------------------------ C12.scan — the tag scanner gives up only at the end
-    k = 0
-    scanners = ctx.facts.impls_of_trait(r"tag_parser::BlockTagParser$")
-    for imp in scanners:
-        for meth in imp["methods"]:
-            if meth["name"] != "next":
-                continue
-            b = ctx.facts.body(meth["def"])
-            if b is None:
-                continue
-            for bi, j, s in b.assigns():
-                rv = s["rv"]
-                if s["lhs"]["l"] == 0 and rv["k"] == "agg" and rv.get("variant") == "Ok":
-                    e = ctx.expr(b).operand(rv["ops"][0])
-                    if not (e[0] == "agg" and e[1].endswith("Option::None")):
-                        continue
-                    for br, vals, ge in util.guards(ctx, b, bi):
-                        if ge[0] == "bin" and ge[1] in ("Ge", "Gt", "Le", "Lt", "Eq", "Ne"):
-                            inner = [x for side in (ge[2], ge[3]) for x in walk(side) if x[0] == "bin" or (x[0] == "call" and re.search(r"(saturating|wrapping|checked)_(add|sub)$", x[1]))]
-                            if inner or ge[1] not in ("Ge",):
-                                out.viol("C12.scan", "C12.scan|bound", ctx.where(b, s["span"]),
-                                         "the tag scanner stops (returns `Ok(None)`) under `%s`: the end-of-text test has slack or a different comparison, so a tag in the last bytes of a comment can be skipped" % render(ge, 160))
-                            else:
-                                k += 1
-                        elif ge[0] == "discr" and find_calls(ge, r"<impl str>::find$"):
-                            k += 1
-                        elif ge[0] == "discr" or ge[0] == "call":
-                            pass
-    out.inst("C12.scan", k, 2, ["Ok(None) iff cursor >= source.len() or no '<' left"])
+    check_scanner_end(ctx, out, "C12.scan")
+    # a file is left unparsed only when no grammar is registered for its name: which grammar a name gets, -E
+    # mappings included, on the lookup's small model (shared with C16)
+    from rules.C16 import shared_lookup
+    shared_lookup(ctx, out, "C12.lookup")
 
     # ------------------------------------------------------------------ shared
     bodies = ctx.reachable_bodies()
